@@ -17,6 +17,13 @@ def decode_scalar_array(tp, data, pos, endianness, count):
     return values, cursor
 
 
+def set_extended_slice(array, idx, values):
+    values = [array._TYPE._check(value) for value in values]
+    if len(array._values[idx]) != len(values):
+        raise ProphyError("setting extended slice with different length collection")
+    array._values[idx] = values
+
+
 def scalar_array_eq(self, other):
     if self is other:
         return True
@@ -45,7 +52,10 @@ class fixed_scalar_array(base_array):
 
     def __setitem__(self, idx, value):
         if isinstance(idx, slice):
-            self.__setslice__(idx.start, idx.stop, value)
+            if idx.step is None or idx.step == 1:
+                self.__setslice__(idx.start, idx.stop, value)
+            else:
+                set_extended_slice(self, idx, value)
         else:
             value = self._TYPE._check(value)
             self._values[idx] = value
@@ -95,7 +105,10 @@ class bound_scalar_array(base_array):
 
     def __setitem__(self, idx, value):
         if isinstance(idx, slice):
-            self.__setslice__(idx.start, idx.stop, value)
+            if idx.step is None or idx.step == 1:
+                self.__setslice__(idx.start, idx.stop, value)
+            else:
+                set_extended_slice(self, idx, value)
         else:
             value = self._TYPE._check(value)
             self._values[idx] = value
